@@ -1,6 +1,6 @@
 from .common import pyvc_units, frame_unit, EMU_FILES
 LEVEL = "other"
-EXPLANATION = ("BOUNDED (histories shared with C11): after <=2 reconfiguration steps (incl. heralds moved to other modes with other photon numbers, with every kind of read after each step) the sampling methods of a long-lived Sampler / QuickSampler return exactly what a fresh object returns for the same seed (heralded modes removed according to the CURRENT heralds). PROVED unbounded (pyvc): Detector.efficiency / p_dark / photon_counting setters accept exactly numeric values in [0,1] / booleans and change nothing when they raise; Rule.validate (<=3 modes, <=2 allowed totals, symbolic) = the photon total over the rule's modes is one of the allowed totals; remove_heralds_from_state is the order-preserving deletion of the herald modes for any list of distinct modes in any order (ghost index maps); add_heralds_to_state (C03). BOUNDED, deterministic (randomness replaced by a scripted oracle). Detector._get_output: for every state of <=3 modes / <=3 photons, 8 detector settings and EVERY boolean outcome sequence (3067 cases) the output equals the documented kernel - one efficiency draw per photon in mode order, then one dark-count draw per mode, then the threshold cap - and consumes exactly those draws; a draw equal to the efficiency still detects. sample_N_outputs (Sampler, QuickSampler): the (values, p) handed to numpy's Generator.choice equal the exact distribution pushed through threshold -> herald check -> herald removal -> post-selection -> min-detection (>=) -> renormalisation; exactly N are returned. sample_N_inputs: with scripted draws the returned counts equal the documented pipeline (detector, herald check after detection, removal, post-selection, min-detection). Equal seeds give equal results. NOT A CONTRACT: 'empirical frequencies converge' - follows from the assumed contracts of random.random / Generator.choice (A4) and the kernel above; no statistical test is run. ADDED LATER (bounded): detectors configured through their setters (also after use), predicates written for State objects, seeds of other numeric types, a two-photon herald with click detectors must not return samples.")
+EXPLANATION = ("BOUNDED (histories shared with C11): after <=2 reconfiguration steps (incl. heralds moved to other modes with other photon numbers, with every kind of read after each step) the sampling methods of a long-lived Sampler / QuickSampler return exactly what a fresh object returns for the same seed (heralded modes removed according to the CURRENT heralds). PROVED unbounded (pyvc): Detector.efficiency / p_dark / photon_counting setters accept exactly numeric values in [0,1] / booleans and change nothing when they raise; Rule.validate (<=3 modes, <=2 allowed totals, symbolic) = the photon total over the rule's modes is one of the allowed totals; remove_heralds_from_state is the order-preserving deletion of the herald modes for any list of distinct modes in any order (ghost index maps); add_heralds_to_state (C03). BOUNDED, deterministic (randomness replaced by a scripted oracle). Detector._get_output: for every state of <=3 modes / <=3 photons, 8 detector settings and EVERY boolean outcome sequence (3067 cases) the output equals the documented kernel - one efficiency draw per photon in mode order, then one dark-count draw per mode, then the threshold cap - and consumes exactly those draws; a draw equal to the efficiency still detects. sample_N_outputs (Sampler, QuickSampler): the (values, p) handed to numpy's Generator.choice equal the exact distribution pushed through threshold -> herald check -> herald removal -> post-selection -> min-detection (>=) -> renormalisation; exactly N are returned. sample_N_inputs: with scripted draws the returned counts equal the documented pipeline (detector, herald check after detection, removal, post-selection, min-detection). Equal seeds give equal results. NOT A CONTRACT: 'empirical frequencies converge' - follows from the assumed contracts of random.random / Generator.choice (A4) and the kernel above; no statistical test is run. ADDED LATER (bounded): detectors configured through their setters (also after use), predicates written for State objects, seeds of other numeric types, a two-photon herald with click detectors must not return samples. PROVED LATER (pyvc): PostSelection.add; process_random_seed returns None or the int value of an integral seed and raises TypeError otherwise.")
 ASSUMPTIONS = ["A4: random.random() is uniform on [0,1), numpy Generator.choice draws i.i.d. from the categorical distribution it is given; seeded => deterministic",
                "the probabilistic conclusion (empirical frequencies converge) is not a contract: it follows from A4 and the deterministic kernel checked here"]
 TRUSTED = ["scripted oracle harness vf/tasks/t_sampling.py"]
